@@ -364,7 +364,9 @@ def gen_ecl(rng, game, tables, **kw):
                 else: tcur += r.randint(0, 60); lines.append('%d:' % tcur) if r.chance(0.5) else lines.append('+%d:' % 0)
             op, params = r.pick(tl_calls_arg0)
             args = [lit_arg(r, p, names) for p in params if not p.is_padding]
-            lines.append('ins_%d(%s);' % (op, ', '.join(args)))
+            # (TH08+ timeline items carry a difficulty byte of their own)
+            dl = '{"%s"}: ' % r.pick(['0', '1', '23', '012', '3', '01', '123']) if (game in ('th08', 'th09', 'th095') and r.chance(0.3)) else ''
+            lines.append('%sins_%d(%s);' % (dl, op, ', '.join(args)))
         text += 'script timeline%d {\n%s\n}\n' % (i, '\n'.join(lines))
     return GenFile('ecl', game, text, used=used | {'timeline'}, shape=shape, truth={'subs': subs, 'timelines': ntl})
 
